@@ -376,3 +376,22 @@ def known_empty(log, seq):
                     or (op == "Ne" and c == 0 and v == 0):
                 return True
     return False
+
+
+def deref_final(o, t, depth=0):
+    """what a reference term denotes in the final state of path o (aggregates are followed; anything else stays symbolic)"""
+    if not (isinstance(t, tuple) and t and t[0] == "ref" and len(t) > 2) or depth > 4:
+        return t
+    v = o.state.env.get(t[1])
+    if v is None:
+        return t
+    for e in t[2]:
+        if e[0] == "f" and is_agg(v):
+            v = agg_get(v, e[1])
+        elif e[0] == "as" and is_agg(v) and v[3] == e[1]:
+            continue
+        else:
+            return t
+        if v is None:
+            return t
+    return deref_final(o, v, depth + 1)
